@@ -9,14 +9,18 @@ from harness import gen
 from harness.framework import Suite
 
 PID = "C05"
-LEAN_MODS = ["SwcVerif.Props.C05", "SwcVerif.Props.C05Gen"]
-TRANSLATE_ALGO = ["AlgoSort"]          # Gen/AlgoSort.lean is regenerated from normalizer.py::sort_nodes_impl on every run
-DRIVER_FILES = ["SwcVerif/Model/AlgoRunSort.lean"]
+LEAN_MODS = ["SwcVerif.Props.C05", "SwcVerif.Props.C05Gen", "SwcVerif.Props.C05Wrap"]
+# Gen/AlgoSort.lean is regenerated from normalizer.py::sort_nodes_impl on every run; Gen/AlgoSortWrap.lean from tree_utils.py::sort_tree, on top of
+# `_sort_tree` in Gen/AlgoRedirect.lean (which imports Gen/AlgoNode.lean) (harness/algo_specs/72_helpers.py, T41)
+TRANSLATE_ALGO = ["AlgoSort", "AlgoNode", "AlgoRedirect", "AlgoSortWrap"]
+DRIVER_FILES = ["SwcVerif/Model/AlgoRunSort.lean", "SwcVerif/Model/AlgoRunSortWrap.lean", "SwcVerif/Gen/AlgoSortWrap.lean"]
 THEOREMS = [
     "C05.machine_eq_pre", "C05.sort_ok", "C05.sort_perm", "C05.sort_sorted", "C05.sort_parent", "C05.sort_root",
     "C05.sort_indices", "C05.edge_is_row", "C05.sort_columns", "C05.sort_again", "C05.isSorted_iff",
     # refinement: the definition generated from sort_nodes_impl on this run returns the model's result
     "RefineSort.sort_refines", "C05.generated_sort_ok", "C05.generated_eq_model",
+    # the wrapper the user calls, tree_utils.sort_tree = the generated _sort_tree on a copy (Props/C05Wrap.lean)
+    "C05.generated_sort_tree_eq", "C05.generated_sort_tree_ok",
 ]
 TRUSTED = ["hand-written model Model/Sort.lean of sort_nodes_impl (tied by the c05.sort correspondence suite: new parents, row indices and id map compared exactly)"]
 ASSUMPTIONS = [
@@ -861,7 +865,12 @@ class SortSuite(Suite):
         i = res["impl"]
         a = f"ids={gen.ints(case['ids'])} pids={gen.ints(case['pids'])}"
         idmap = [case["ids"][k] for k in i["indices"]]
-        return [("sort " + a, f"{gen.ints(i['new_pids'])} / {gen.ints(i['indices'])} / {gen.ints(idmap)}"),
+        wrap = []
+        tr = res.get("tree")
+        if isinstance(tr, dict) and "id" in tr and len(case.get("types") or []) == len(case["ids"]):
+            # the wrapper GENERATED from tree_utils.sort_tree on the tree object's columns against the real sort_tree(tree)
+            wrap = [(f"gsorttree {a} types={gen.ints(case['types'])}", f"{gen.ints(tr['id'])} / {gen.ints(tr['pid'])} / {gen.ints(tr['types'])}")]
+        return wrap + [("sort " + a, f"{gen.ints(i['new_pids'])} / {gen.ints(i['indices'])} / {gen.ints(idmap)}"),
                 # the definition generated from sort_nodes_impl on this run (translator cross-check)
                 ("gsort " + a, f"{gen.ints(i['new_pids'])} / {gen.ints(i['indices'])}"),
                 ("issorted " + a, str(res["is_sorted_in"])),
